@@ -37,7 +37,7 @@ struct St_exec {
   typedef Gudhi::Simplex_tree<Opt> ST; typedef typename ST::Filtration_value FV; typedef typename ST::Vertex_handle VH;
   static constexpr bool HAS_F = Opt::store_filtration;
   static constexpr int K = 3;
-  struct Slot { std::unique_ptr<ST> st; Complex m; };
+  struct Slot { std::unique_ptr<ST> st; Complex m; bool dirty = false; /* modified by the caller since the filtration cache was last built or reset */ };
   const sim::Plan& p; sim::Run& r; std::string cfg; sth::Obs dummy_obs; sth::Exec<Opt> helper;
   Slot slot[K];
 
@@ -48,6 +48,7 @@ struct St_exec {
   void audit(int s, uint64_t seed, const char* what) { helper.audit_tree(*slot[s].st, slot[s].m, seed, true, what); r.audited = true; }
   void mutate(int s, long kind, long a, long b) {
     ST& st = *slot[s].st; Complex& m = slot[s].m;
+    slot[s].dirty = true;  // whatever happens below, the caller treats the tree as modified
     const bool contig = helper.contig;
     if (contig && m.num_vertices() != (size_t)m.n) { std::vector<VH> vs; for (int i = 0; i < m.n; ++i) vs.push_back(helper.lab[i]); st.insert_batch_vertices(vs, (FV)0); for (int i = 0; i < m.n; ++i) if (!m.has(1u << i)) m.insert_one(1u << i, 0); }
     switch (kind % 5) {
@@ -56,7 +57,18 @@ struct St_exec {
       case 3: { double t = helper.val(a % 9); st.prune_above_filtration((FV)t); m.prune_above_value(t); break; }
       case 4: { if (a % 3 == 0) { st.clear(); m.clear(); } else { int d = (int)(a % 5); st.prune_above_dimension(d); m.prune_above_dim(d); } break; }
     }
-    r.mutated = true;
+    slot[s].dirty = true; r.mutated = true;
+  }
+
+  // the filtration order of a slot: the caller clears the cache after its own modifications (documented duty); copies, assignments and
+  // moves are the library's operations and must leave a consistent cache themselves
+  void order(int a, const char* what) {
+    if constexpr (HAS_F) {
+      ST& st = *slot[a].st; if (slot[a].dirty) { st.clear_filtration(); slot[a].dirty = false; }
+      std::vector<Mask> seq; for (auto sh : st.filtration_simplex_range()) seq.push_back(helper.mask_of(st, sh));
+      helper.check_order_valid(slot[a].m, seq, false, what);
+      r.count("probe.order_after_lifetime_op");
+    }
   }
 
   void serialisation(int a, long fault, long k, uint64_t seed) {
@@ -97,7 +109,7 @@ struct St_exec {
     if (!HAS_F) { r.skipped(); return; }
     bool has_inf = false; for (Mask x : m.simplices()) if (m.val[x] == std::numeric_limits<double>::infinity()) has_inf = true;
     if (has_inf) { r.count("probe.text_with_infinite_value"); if (r.kf("C15-KF2")) { r.skipped(); return; } }
-    st.clear_filtration();  // caller duty after modifications (the printer walks the filtration order)
+    st.clear_filtration(); slot[a].dirty = false;  // caller duty after modifications (the printer walks the filtration order)
     std::ostringstream os; if (mode % 2) os << std::setprecision(std::numeric_limits<double>::max_digits10);
     os << st;
     std::string text = os.str();
@@ -125,8 +137,8 @@ struct St_exec {
     } else {
       if (a == b) { r.skipped(); return; }
       try { g_alloc_countdown = at; *slot[b].st = src; g_alloc_countdown = 0; } catch (const std::bad_alloc&) { g_alloc_countdown = 0; thrown = true; }
-      if (thrown) { slot[b].st.reset(new ST()); slot[b].m.clear(); }  // nothing is promised about a half-assigned target beyond being destructible
-      else slot[b].m = slot[a].m;
+      if (thrown) { slot[b].st.reset(new ST()); slot[b].m.clear(); slot[b].dirty = false; }  // nothing is promised about a half-assigned target beyond being destructible
+      else { slot[b].m = slot[a].m; slot[b].dirty = false; }
     }
     if (thrown) r.count("fault.alloc_failed_in_copy"); else r.count("fault.alloc_not_reached");
     // the source is untouched
@@ -139,12 +151,13 @@ struct St_exec {
       const std::string& nm = op.name;
       int a = (int)(op.arg(0) % K), b = (int)(op.arg(1) % K);
       if (nm == "st_mut") mutate(a, op.arg(1), op.arg(2), op.arg(3));
-      else if (nm == "st_copy_ctor") { slot[b].st.reset(a == b ? new ST(*slot[a].st) : new ST(*slot[a].st)); if (a != b) slot[b].m = slot[a].m; audit(b, op.arg(2), "copy-constructed tree"); audit(a, op.arg(2) + 1, "source of a copy"); r.mutated = true; }
-      else if (nm == "st_copy_assign") { *slot[b].st = *slot[a].st; slot[b].m = slot[a].m; if (a == b) r.count("probe.self_assignment"); audit(b, op.arg(2), "copy-assigned tree"); audit(a, op.arg(2) + 1, "source of a copy assignment"); r.mutated = true; }
-      else if (nm == "st_move_ctor") { if (a == b) { r.skipped(); continue; } slot[b].st.reset(new ST(std::move(*slot[a].st))); slot[b].m = slot[a].m; slot[a].m.clear(); audit(b, op.arg(2), "move-constructed tree"); audit(a, op.arg(2) + 1, "moved-from tree"); r.mutated = true; }
-      else if (nm == "st_move_assign") { if (a == b) { r.skipped(); continue; } *slot[b].st = std::move(*slot[a].st); slot[b].m = slot[a].m; slot[a].m.clear(); audit(b, op.arg(2), "move-assigned tree"); audit(a, op.arg(2) + 1, "moved-from tree"); r.mutated = true; }
-      else if (nm == "st_swap") { if (a == b) { r.skipped(); continue; } std::swap(*slot[a].st, *slot[b].st); std::swap(slot[a].m, slot[b].m); audit(a, op.arg(2), "swapped tree"); audit(b, op.arg(2) + 1, "swapped tree"); r.mutated = true; }
-      else if (nm == "st_destroy") { slot[a].st.reset(new ST()); slot[a].m.clear(); r.mutated = true; }
+      else if (nm == "st_copy_ctor") { slot[b].st.reset(a == b ? new ST(*slot[a].st) : new ST(*slot[a].st)); if (a != b) { slot[b].m = slot[a].m; slot[b].dirty = false; } audit(b, op.arg(2), "copy-constructed tree"); audit(a, op.arg(2) + 1, "source of a copy"); order(b, "filtration order of a copy-constructed tree"); order(a, "filtration order of the source of a copy"); r.mutated = true; }
+      else if (nm == "st_copy_assign") { *slot[b].st = *slot[a].st; slot[b].m = slot[a].m; if (a != b) slot[b].dirty = false; if (a == b) r.count("probe.self_assignment"); audit(b, op.arg(2), "copy-assigned tree"); audit(a, op.arg(2) + 1, "source of a copy assignment"); order(b, "filtration order of a copy-assigned tree"); order(a, "filtration order of the source of a copy assignment"); r.mutated = true; }
+      else if (nm == "st_move_ctor") { if (a == b) { r.skipped(); continue; } slot[b].st.reset(new ST(std::move(*slot[a].st))); slot[b].m = slot[a].m; slot[a].m.clear(); slot[b].dirty = slot[a].dirty; slot[a].dirty = false; audit(b, op.arg(2), "move-constructed tree"); audit(a, op.arg(2) + 1, "moved-from tree"); order(b, "filtration order of a move-constructed tree"); order(a, "filtration order of a moved-from tree"); r.mutated = true; }
+      else if (nm == "st_move_assign") { if (a == b) { r.skipped(); continue; } *slot[b].st = std::move(*slot[a].st); slot[b].m = slot[a].m; slot[a].m.clear(); slot[b].dirty = slot[a].dirty; slot[a].dirty = false; audit(b, op.arg(2), "move-assigned tree"); audit(a, op.arg(2) + 1, "moved-from tree"); order(b, "filtration order of a move-assigned tree"); order(a, "filtration order of a moved-from tree"); r.mutated = true; }
+      else if (nm == "st_swap") { if (a == b) { r.skipped(); continue; } std::swap(*slot[a].st, *slot[b].st); std::swap(slot[a].m, slot[b].m); std::swap(slot[a].dirty, slot[b].dirty); audit(a, op.arg(2), "swapped tree"); audit(b, op.arg(2) + 1, "swapped tree"); r.mutated = true; }
+      else if (nm == "st_destroy") { slot[a].st.reset(new ST()); slot[a].m.clear(); slot[a].dirty = false; r.mutated = true; }
+      else if (nm == "st_order") order(a, "filtration order");
       else if (nm == "st_audit") audit(a, op.arg(1), "tree");
       else if (nm == "st_ser") serialisation(a, op.arg(1) % 4, op.arg(2), (uint64_t)op.arg(3));
       else if (nm == "st_text") text_roundtrip(a, (uint64_t)op.arg(1), op.arg(2));
